@@ -113,6 +113,10 @@ def run_case(case):
         T, vals = M.decode(desc)
         spec = case["spec"]
         op = oplabel(spec) + "|" + region(T, vals, spec)
+        if spec["op"] == "reduce" and ("'string'" in repr(T) or "'bytes'" in repr(T)):
+            # the same restriction as C02, C03, C12 and C18: reducers are defined on numeric leaves (on strings the library reduces the
+            # characters, through the non-local machinery whose defects are recorded under C03)
+            return {"discarded": "reducers are defined on numeric leaves, not on strings"}
         try:
             kind, res, tv = run_checked(desc, spec)
         except Violation as v:
